@@ -56,6 +56,11 @@ let () =
         print_string "> "; print_string (string_of_bytes (show_get r)); print_newline ()
       | _ :: "tamper" :: [key; "delete"] -> do_ev (EvTamper (bytes_of_string key, None))
       | _ :: "tamper" :: [key; "bytes"; b] -> do_ev (EvTamper (bytes_of_string key, Some (OB (unhex b))))
+      | _ :: "tamper" :: [key; "staging"; ups] ->
+        let up_of s = match String.split_on_char ':' s with
+          | [k; code; data] -> { u_key = bytes_of_string k; u_opt = uopt_of code; u_data = unhex data }
+          | _ -> failwith ("upload " ^ s) in
+        do_ev (EvTamper (bytes_of_string key, Some (OS (List.map up_of (String.split_on_char ',' ups)))))
       | _ :: "tamper" :: [key; "cp"; origin; size; root; ts; k; ext] ->
         do_ev (EvTamper (bytes_of_string key, Some (OC { cp_origin = bytes_of_string origin; cp_size = n_of_string size;
                  cp_root = unhex root; cp_ts = z_of_string ts; cp_key = n_of_string k; cp_ext = unhex ext })))
